@@ -427,6 +427,7 @@ def exec_history_step(world: World, model: HistoryModel, st, out=None):
         except Exception as e:
             return StepResult(op, exc=e, info={"has_remove": False})
         after = world.snapshot()
+        model._truncate()  # (the redo re-enters the undo list under the limit now in force)
         before = {k: v for k, v in before.items() if not is_ignored_path(k)}
         after = {k: v for k, v in after.items() if not is_ignored_path(k)}
         # model: undo then redo of the last change leaves lists as they were,
